@@ -55,6 +55,8 @@ F["F23"] = ("C01", "structural", {"refs": True, "no_exclusions": True, "max_size
              {"SetRef": {"slot": 5, "target": 0}}, MARK(6, False), T(), DM(0, 0), DU(0, 2), DU(0, 1), CF()])
 F["F20"] = ("C16", "prespawn", {"vis": 1, "prespawn": True, "no_exclusions": True},
             [{"PreSpawn": {"client": 0, "slot": 0, "kill": False, "gap": False, "early": False}}, VIS(0, 0, False), T(), DU(), CF(), VIS(0, 0, True), T(), DU(), CF()])
+# F24: a multi-component rule that starts matching in a later tick than the one that saw its other components
+F["F24"] = ("C01", "general", {"bundle": True, "no_exclusions": True}, [S(0, ("X",)), *SYNC, INS(0, "Y"), *SYNC, *SYNC])
 
 for name, (prop, unit, over, steps) in F.items():
     cfg = dict(BASE); cfg.update(over)
@@ -63,6 +65,9 @@ for name, (prop, unit, over, steps) in F.items():
     if name == "F23":
         r2 = dict(r); r2["property"] = "C03"
         json.dump(r2, open("/verif/replays/F23_c03.json", "w"), indent=1)
+    if name == "F24":
+        r2 = dict(r); r2["property"] = "C03"; r2["unit"] = "structural"
+        json.dump(r2, open("/verif/replays/F24_c03.json", "w"), indent=1)
 # findings of the non-engine properties (each in its property's own case format)
 OTHER = {
  "F5a": ("C06", "exh2_0_0", {"authorized": False, "chan": 0, "bytes": [1, 1]}),
